@@ -26,7 +26,11 @@ for line in open(os.path.join(HERE, "seeded/matrix.txt")):
     else:
         rc = re.search(r"rc=(\d*)", line).group(1)
         viol = int(re.search(r"violations=(\d+)", line).group(1))
-        by = " ".join(p for p in parts[3:])
+        by = " ".join(p for p in parts[3:] if "_known_" not in p)   # known-finding harnesses always "fail" by design
+        if not by:
+            log = "/tmp/seedrun_%s.log" % sid
+            if os.path.exists(log):
+                by = " ".join(sorted(set(re.findall(r"replay=\S*/C\d\d-(\w+?)-[0-9a-f]{10}\.json", open(log).read()))))
         if rc == "1" and viol:
             det = "**VIOLATION** (reproduced natively)"
         elif rc == "2":
